@@ -57,7 +57,9 @@ class C18Machine(RuleBasedStateMachine):
             for _ in range(2):
                 v = vg.value(ty, m.name)
                 self.pool.append(('enc', name, v))
-                e = outcome(asn1tools.compile_dict(copy.deepcopy(self.parsed), self.codec).encode, name, v)
+                # (a copy: only the calls under test may touch the pooled argument objects)
+                e = outcome(asn1tools.compile_dict(copy.deepcopy(self.parsed), self.codec).encode, name,
+                            copy.deepcopy(v))
                 if e[0] == 'ok':
                     b = bytes(e[1])
                     self.pool.append(('dec', name, b))
@@ -78,7 +80,8 @@ class C18Machine(RuleBasedStateMachine):
     def oracle(self, i):
         if i not in self.expected:
             fresh = asn1tools.compile_dict(copy.deepcopy(self.parsed), self.codec)
-            self.expected[i] = run_op(fresh, self.pool[i])
+            k_, n_, p_ = self.pool[i]
+            self.expected[i] = run_op(fresh, (k_, n_, copy.deepcopy(p_)))
         return self.expected[i]
 
     @precondition(lambda self: self.ok and len(self.history) < 50)
@@ -188,8 +191,13 @@ class C18(Check):
         shared = asn1tools.compile_dict(copy.deepcopy(parsed), codec)
         pool = [(k, n, jsonio.dec(p)) for k, n, p in case['pool']]
         for j, i in enumerate(case['history']):
-            want = run_op(asn1tools.compile_dict(copy.deepcopy(parsed), codec), pool[i])
+            want = run_op(asn1tools.compile_dict(copy.deepcopy(parsed), codec),
+                          (pool[i][0], pool[i][1], copy.deepcopy(pool[i][2])))
+            before = jsonio.dumps(jsonio.enc(pool[i][2]))
             got = run_op(shared, pool[i])
+            if before != jsonio.dumps(jsonio.enc(pool[i][2])):
+                rec.fail(Failure('argument-modified', 'op #%d modified its argument' % j, case))
+                return
             if got != want:
                 rec.fail(Failure('sequential-differs', 'op #%d gave %s, alone %s' % (j, got[:200], want[:200]), case))
                 return
